@@ -353,8 +353,8 @@ class BackendProvider(ABC):
 
     def _compiled_list_operand(self, a):
         """Operand of a compiled Over / Scan-Over: only a non-empty array is folded by generated code,
-        atoms and empty lists (which the adverbs return unchanged) are left to the interpreter."""
-        if not self.is_array(a) or self.array_size(a) == 0:
+        atoms (0-dimensional arrays included) and empty lists are left to the interpreter."""
+        if not self.is_array(a) or getattr(a, 'ndim', 0) == 0 or self.array_size(a) == 0:
             raise ValueError("not a non-empty list")
         return a
 
